@@ -68,8 +68,8 @@ PROP = {
     "id": "C06",
     "thm_module": "Tyme.Thm.C06",
     "thm_file": "Tyme/Thm/C06.lean",
-    "lean_targets": ["Tyme.Thm.C06", "Tyme.Thm.Total"],
-    "fact_files": [("Tyme/Thm/Total.lean", "Tyme.Thm.Total")],
+    "lean_targets": ["Tyme.Thm.C06", "Tyme.Thm.Total", "Tyme.Thm.C08c"],
+    "fact_files": [("Tyme/Thm/Total.lean", "Tyme.Thm.Total"), ("Tyme/Thm/C08c.lean", "Tyme.Thm.C08c")],
     "audit_files": ["Tyme/Model/Term.lean", "Tyme/Model/Eph.lean", "Tyme/Model/RealEph.lean", "Tyme/Facts/Terms.lean",
                     "Tyme/Facts/TermsFact.lean", "Tyme/Facts/Preds.lean", "Tyme/Basic/Packed.lean"],
     "gen": [gen_eph],
